@@ -257,3 +257,27 @@ package data
 //@   local n *data.Node#1
 //@   requires n != nil
 //@   ensures [C09] result.ID == n.ID && result.Email == findText(n.Points, "email", "") && result.Pass == findText(n.Points, "pass", "")
+
+//@ func NodeToUser
+//@   props C09
+//@   local node data.Node#1
+//@   local ret data.User#1
+//@   ensures [C09] res0.ID == node.ID && res1 == nil
+//@   loop 1:
+//@     invariant -1 <= rangeindex && rangeindex < len(node.Points) || rangeindex == -1
+//@     invariant ret.ID == node.ID
+//@     decreases len(node.Points) - rangeindex
+
+//@ func RemoveDuplicateNodesIDParent
+//@   props C09
+//@   local nodes []data.NodeEdge#1
+//@   local keys map[string]bool#1
+//@   local ret []data.NodeEdge#2
+//@   fresh res0
+//@   ensures [C09] only-given-nodes: forall k int :: 0 <= k && k < len(res0) ==> (exists j int :: 0 <= j && j < len(nodes) && res0[k] == nodes[j])
+//@   loop 1:
+//@     invariant -1 <= rangeindex && rangeindex < len(nodes) || rangeindex == -1
+//@     invariant isfresh(ret) && isfresh(keys) && (refOf(ret) == refOf(preloop(ret)) || sinceLoop(ret))
+//@     invariant forall k int :: 0 <= k && k < len(ret) ==> (exists j int :: 0 <= j && j <= rangeindex && ret[k] == nodes[j])
+//@     modifies ret, keys
+//@     decreases len(nodes) - rangeindex
